@@ -165,6 +165,10 @@ func (w *World) exchange(entity Entity, add []ID, rem []ID, relations []relation
 	oldTable = &w.storage.tables[oldTable.id]
 	oldArchetype = &w.storage.archetypes[oldTable.archetype]
 
+	// Register the targets before any callback runs, as the relations slice may be the caller's
+	// scratch memory, which a rejected call from inside a callback overwrites.
+	w.storage.registerTargets(relations)
+
 	if len(rem) > 0 {
 		hasCompObs := w.storage.observers.HasObservers(OnRemoveComponents)
 		hasRelObs := relRemoved && w.storage.observers.HasObservers(OnRemoveRelations)
@@ -197,8 +201,6 @@ func (w *World) exchange(entity Entity, add []ID, rem []ID, relations []relation
 		w.storage.entities[swapEntity.id].row = index.row
 	}
 	w.storage.entities[entity.id] = entityIndex{table: newTable.id, row: newIndex}
-
-	w.storage.registerTargets(relations)
 
 	return &oldArchetype.mask, &newArch.mask
 }
@@ -238,6 +240,10 @@ func (w *World) exchangeBatch(batch *Batch, add []ID, rem []ID,
 	}
 	w.storage.slices.tables = tables[:0]
 
+	// Register the targets before any callback runs, as the relations slice may be the caller's
+	// scratch memory, which a rejected call from inside a callback overwrites.
+	w.storage.registerTargets(relations)
+
 	lock := w.lock()
 
 	if len(rem) > 0 {
@@ -276,7 +282,7 @@ func (w *World) exchangeBatch(batch *Batch, add []ID, rem []ID,
 	for i := range batchTables {
 		batch := &batchTables[i]
 
-		start, len := w.exchangeTable(batch.oldTable, batch.newTable, relations)
+		start, len := w.exchangeTable(batch.oldTable, batch.newTable)
 		if fn != nil {
 			fn(batch.newTable, start, len)
 		}
@@ -322,7 +328,7 @@ func (w *World) exchangeBatch(batch *Batch, add []ID, rem []ID,
 
 // exchangeTable performs batch-exchange on a single table.
 // Returns the start index of the entities in the new table and number of entities.
-func (w *World) exchangeTable(oldTableID, newTableID tableID, relations []relationID) (uint32, uint32) {
+func (w *World) exchangeTable(oldTableID, newTableID tableID) (uint32, uint32) {
 	oldTable := &w.storage.tables[oldTableID]
 
 	oldArchetype := &w.storage.archetypes[oldTable.archetype]
@@ -355,7 +361,6 @@ func (w *World) exchangeTable(oldTableID, newTableID tableID, relations []relati
 	}
 
 	oldTable.Reset()
-	w.storage.registerTargets(relations)
 
 	return startIdx, count
 }
@@ -393,6 +398,10 @@ func (w *World) setRelations(entity Entity, relations []relationID) {
 		oldTable = &w.storage.tables[oldTable.id]
 	}
 
+	// Register the targets before any callback runs, as the relations slice may be the caller's
+	// scratch memory, which a rejected call from inside a callback overwrites.
+	w.storage.registerTargets(relations)
+
 	if w.storage.observers.HasObservers(OnRemoveRelations) {
 		lock := w.lock()
 		newMask := &w.storage.archetypes[newTable.archetype].mask
@@ -411,8 +420,6 @@ func (w *World) setRelations(entity Entity, relations []relationID) {
 		w.storage.entities[swapEntity.id].row = index.row
 	}
 	w.storage.entities[entity.id] = entityIndex{table: newTable.id, row: newIndex}
-
-	w.storage.registerTargets(relations)
 
 	if w.storage.observers.HasObservers(OnAddRelations) {
 		newMask := &w.storage.archetypes[newTable.archetype].mask
@@ -469,6 +476,10 @@ func (w *World) setRelationsBatch(batch *Batch, relations []relationID, fn func(
 	}
 	w.storage.slices.tables = tables[:0]
 
+	// Register the targets before any callback runs, as the relations slice may be the caller's
+	// scratch memory, which a rejected call from inside a callback overwrites.
+	w.storage.registerTargets(relations)
+
 	lock := w.lock()
 
 	// Removal events for the entire batch, before anything is changed.
@@ -518,7 +529,6 @@ func (w *World) setRelationsBatch(batch *Batch, relations []relationID, fn func(
 	}
 
 	w.storage.slices.batches = batchTables[:0]
-	w.storage.registerTargets(relations)
 
 	w.unlock(lock)
 }
